@@ -205,10 +205,33 @@ fn enc_bytes(rng: &mut Rng, enc: &'static encoding_rs::Encoding, maxlen: usize) 
 /// chunk: what has been delivered so far must be a prefix of the final text (nothing is retracted),
 /// and `inner_sink_mut()` / `error()` reach the same sink.
 fn check_encoding_ctor_variants(enc: &'static encoding_rs::Encoding, input: &[u8], cuts: &[usize], st: &mut Stats) {
-    let utf8 = enc == encoding_rs::UTF_8;
-    let (want, had_errors) = if utf8 { (String::from_utf8_lossy(input).into_owned(), false) } else { let (w, e) = enc.decode_without_bom_handling(input); (w.into_owned(), e) };
+    // which decoder the caller hands over: 0 = LossyDecoder::utf8 (UTF-8 only), 1 = without BOM handling,
+    // 2 = BOM sniffing (new_decoder), 3 = BOM removal; the reference is the matching one-shot decode
+    let variant = if enc == encoding_rs::UTF_8 { (input.len() + cuts.len()) % 4 } else { 1 + (input.len() + cuts.len()) % 3 };
+    let utf8 = variant == 0;
+    let (want, had_errors) = match variant {
+        0 => (String::from_utf8_lossy(input).into_owned(), false),
+        1 => {
+            let (w, e) = enc.decode_without_bom_handling(input);
+            (w.into_owned(), e)
+        },
+        2 => {
+            let (w, _, e) = enc.decode(input);
+            (w.into_owned(), e)
+        },
+        _ => {
+            let (w, e) = enc.decode_with_bom_removal(input);
+            (w.into_owned(), e)
+        },
+    };
+    st.count(["ctor:utf8()", "ctor:decoder-without-bom-handling", "ctor:decoder-with-bom-sniffing", "ctor:decoder-with-bom-removal"][variant]);
     let r = catch(|| {
-        let mut d: LossyDecoder<Rec> = if utf8 { LossyDecoder::utf8(Rec::default()) } else { LossyDecoder::new_from_encoding_rs_decoder(enc.new_decoder_without_bom_handling(), Rec::default()) };
+        let mut d: LossyDecoder<Rec> = match variant {
+            0 => LossyDecoder::utf8(Rec::default()),
+            1 => LossyDecoder::new_from_encoding_rs_decoder(enc.new_decoder_without_bom_handling(), Rec::default()),
+            2 => LossyDecoder::new_from_encoding_rs_decoder(enc.new_decoder(), Rec::default()),
+            _ => LossyDecoder::new_from_encoding_rs_decoder(enc.new_decoder_with_bom_removal(), Rec::default()),
+        };
         let mut not_prefix = None;
         for (k, c) in split_bytes(input, cuts).iter().enumerate() {
             d.process(Tendril::<Bytes>::from_slice(c));
@@ -229,7 +252,7 @@ fn check_encoding_ctor_variants(enc: &'static encoding_rs::Encoding, input: &[u8
         Err(m) => st.violation(&format!("enc-ctor:panic:{}", crate::report::panic_signature(&m)), &format!("{} bytes [{}] cuts={:?}: panic {m}", enc.name(), hex(&input[..input.len().min(40)]), &cuts[..cuts.len().min(8)]), rep()),
         Ok((rec, not_prefix, forwarded)) => {
             if rec.out != want {
-                st.violation("enc-ctor:text", &format!("{} (decoder without BOM handling) bytes [{}] cuts={:?}: chunked output differs from decode_without_bom_handling (lengths {} vs {})", enc.name(), hex(&input[..input.len().min(40)]), &cuts[..cuts.len().min(8)], rec.out.len(), want.len()), rep());
+                st.violation("enc-ctor:text", &format!("{} (caller-made decoder, see the ctor:* counters) bytes [{}] cuts={:?}: chunked output differs from the matching one-shot decode (lengths {} vs {})", enc.name(), hex(&input[..input.len().min(40)]), &cuts[..cuts.len().min(8)], rec.out.len(), want.len()), rep());
             } else if let Some(k) = not_prefix {
                 st.violation("enc-ctor:not-a-prefix", &format!("{} bytes [{}] cuts={:?}: after chunk #{k} the text delivered so far is not a prefix of the final text", enc.name(), hex(&input[..input.len().min(40)]), &cuts[..cuts.len().min(8)]), rep());
             } else if !forwarded {
